@@ -241,6 +241,11 @@ func (C08) Run(tp *tape.Tape) core.Result {
 				r.Violation = panicViolation("panic", o, h)
 				return true
 			}
+			if o.Report != "" && collapseReports(o.Report) != "RUNTIME ERROR" {
+				// what a failing statement wrote before it failed comes before its report; nothing follows the report
+				r.Violation = &core.Violation{Clause: "output-after-report", Detail: fmt.Sprintf("%s: after the error report the statement's output goes on with %q", label, trunc(strings.TrimPrefix(collapseReports(o.Report), "RUNTIME ERROR"), 200)), History: h}
+				return true
+			}
 			if o.Kind != sess.KParse && !o.After.AtRest(0) {
 				r.Violation = &core.Violation{Clause: "at-rest-after-" + o.Kind, Detail: fmt.Sprintf("%s: %s", label, o.After), History: h}
 				return true
@@ -520,6 +525,14 @@ func c08Stream(lsteps []lstep, nDefs int, repl, binary bool, r *core.Result, h *
 	if ea != "" {
 		r.Violation = &core.Violation{Clause: "stream-session-lost", Detail: "stream with failing statements: " + ea + " (everything after it was never evaluated or the loop died); last output " + trunc(strings.Join(sa, "|"), 300), History: h}
 		return r.Violation
+	}
+	for i := range lsteps {
+		for _, seg := range []string{sa[i], sb[i]} {
+			if c := collapseReports(seg); strings.Contains(c, "RUNTIME ERROR") && !strings.HasSuffix(c, "RUNTIME ERROR") {
+				r.Violation = &core.Violation{Clause: "stream-output-after-report", Detail: fmt.Sprintf("step %d %q through %s: output goes on after the error report: %q", i, trunc(lsteps[i].a, 60), where, trunc(c, 200)), History: h}
+				return r.Violation
+			}
+		}
 	}
 	for i, st := range lsteps {
 		if !st.cmp {
